@@ -58,6 +58,7 @@ def main(argv):
         from fractions import Fraction
 
         case_id, seed, npts = argv[2], int(argv[3]), int(argv[4])
+        os.environ["GVC_OPEN_FINDINGS"] = ""  # compare the raw clauses: excuses of known findings are not applied here
         load_contracts()
         from gvc.harness import BY_ID, concrete_proxy_run
 
